@@ -455,7 +455,9 @@ class FlatLinearOperator(ScipyLinearOperator):
                 size = sl.stop - sl.start
                 self.shape = (size, size)
             else:
-                self._mask = np.all(self.leg.to_qflat() == value[np.newaxis, :], axis=1)
+                # a vector with `qtotal = value` has its entries where `charge * qconj == value`
+                qflat = self.leg.chinfo.make_valid(self.leg.to_qflat() * self.leg.qconj)
+                self._mask = np.all(qflat == value[np.newaxis, :], axis=1)
                 self.shape = tuple([np.sum(self._mask)] * 2)
         else:
             if self.compact_flat:
